@@ -1,14 +1,17 @@
 // C17 harness: consistent hashing (collections/consistent/consistent.go).
 //
 // input    = (names ops keys)
-//            names = table of distinct member names (byte strings)
-//            ops   = ((0 i) AddNode(names[i]) | (1 i) RemoveNode(names[i])) ...
-//            keys  = byte strings
+//
+//	names = table of distinct member names (byte strings)
+//	ops   = ((0 i) AddNode(names[i]) | (1 i) RemoveNode(names[i])) ...
+//	keys  = byte strings
+//
 // observed = one entry per op, taken after the op: ((r_1 .. r_k) repeat_equal)
-//            r_j = index in names of GetNodeBy(key_j); -1 the call panicked (empty ring);
-//            -2 a string that is not in the table; -3 the op itself panicked.
-//            repeat_equal = 1 iff a second round of the same lookups, made in reverse
-//            order, gave the same answers.
+//
+//	r_j = index in names of GetNodeBy(key_j); -1 the call panicked (empty ring);
+//	-2 a string that is not in the table; -3 the op itself panicked.
+//	repeat_equal = 1 iff a second round of the same lookups, made in reverse
+//	order, gave the same answers.
 package main
 
 import (
@@ -398,5 +401,51 @@ func gen(a Args, out *Out) {
 		}
 		keys = append(keys, randKeys(rng, nKeys-len(keys), names)...)
 		emit("collision", history{names: names, ops: ops, keys: keys})
+	}
+
+	// 3. grow-then-shrink: a large ring (70..120 members, 1400..2400 points) shrinks to a few
+	// members in single removals, so that the sorted point list is rebuilt from a much larger
+	// one; keys include those hashing beyond the last point (wrap-around to the first)
+	nGrow := 2
+	if a.Thorough() {
+		nGrow = 12
+	}
+	for g := 0; g < nGrow; g++ {
+		n := rng.Range(70, 120)
+		names := make([]string, n)
+		for i := range names {
+			names[i] = fmt.Sprintf("grow%d_%d", g, i)
+		}
+		var ops [][2]int
+		for i := 0; i < n; i++ {
+			ops = append(ops, [2]int{0, i})
+		}
+		keep := 1 // the first history shrinks to a single member (the sorted list is then re-allocated)
+		if g > 0 {
+			keep = rng.Range(1, 3)
+		}
+		perm := make([]int, n)
+		for i := range perm {
+			perm[i] = i
+		}
+		for i := n - 1; i > 0; i-- {
+			j := rng.Intn(i + 1)
+			perm[i], perm[j] = perm[j], perm[i]
+		}
+		for _, i := range perm[keep:] {
+			ops = append(ops, [2]int{1, i})
+		}
+		ops = append(ops, [2]int{0, perm[n-1]}, [2]int{1, perm[0]})
+		// keys with the largest hashes (beyond the last point of a small ring) + random ones
+		var keys []string
+		for k := 0; len(keys) < 16 && k < 4000000; k++ {
+			s := fmt.Sprintf("w%d_%d", g, k)
+			if fnv32(s) > 0xFF000000 {
+				keys = append(keys, s)
+			}
+		}
+		keys = append(keys, randKeys(rng, 24, names)...)
+		out.Count("grow-then-shrink")
+		emit("grow-shrink", history{names: names, ops: ops, keys: keys})
 	}
 }
